@@ -133,8 +133,15 @@ func (e *env) locator(s string) blockchain.BlockLocator {
 	if s == "-" {
 		return nil
 	}
+	if s == "e" { // empty but non-nil
+		return blockchain.BlockLocator{}
+	}
 	var loc blockchain.BlockLocator
 	for _, x := range strings.Split(s, ".") {
+		if x == "z" { // the all-zero hash
+			loc = append(loc, &chainhash.Hash{})
+			continue
+		}
 		loc = append(loc, e.hash(atoi(x)))
 	}
 	return loc
@@ -255,6 +262,51 @@ func (e *env) op(tok string) string {
 	case "hdr":
 		hdrs := t.LocateHeaders(e.locator(f[1]), e.hash(atoi(f[2])), uint32(atoi(f[3])))
 		return e.keep(func() string { return e.hdrIDs(hdrs) })
+	case "reuse":
+		// one locator slice and one stop hash object, reused by several calls, sequentially and from
+		// concurrent goroutines; every call answers the same and the caller's objects are untouched
+		loc, stop, mx := e.locator(f[1]), e.hash(atoi(f[2])), uint32(atoi(f[3]))
+		locCopy := make([]chainhash.Hash, len(loc))
+		ptrCopy := make([]*chainhash.Hash, len(loc))
+		for i, h := range loc {
+			locCopy[i], ptrCopy[i] = *h, h
+		}
+		stopCopy := *stop
+		a := t.Chain.LocateBlocks(loc, stop, mx)
+		hd := t.LocateHeaders(loc, stop, mx)
+		first := e.ids(a)
+		res := first + "/" + e.hdrIDs(hd)
+		var wg sync.WaitGroup
+		outs := make([]string, 6)
+		for k := range outs {
+			wg.Add(1)
+			go func(k int) {
+				defer wg.Done()
+				if k%2 == 0 {
+					outs[k] = e.ids(t.Chain.LocateBlocks(loc, stop, mx))
+				} else {
+					outs[k] = e.hdrIDs(t.LocateHeaders(loc, stop, mx))
+				}
+			}(k)
+		}
+		wg.Wait()
+		for _, o := range outs {
+			if o != first {
+				return "concurrent-differs:" + res
+			}
+		}
+		if e.ids(t.Chain.LocateBlocks(loc, stop, mx)) != first || e.ids(a) != first {
+			return "repeat-differs:" + res
+		}
+		if *stop != stopCopy {
+			return "input-changed:" + res
+		}
+		for i, h := range loc {
+			if h != ptrCopy[i] || *h != locCopy[i] {
+				return "input-changed:" + res
+			}
+		}
+		return res
 	case "lh": // the public LocateHeaders (wire.MaxBlockHeadersPerMsg cap)
 		hdrs := t.Chain.LocateHeaders(e.locator(f[1]), e.hash(atoi(f[2])))
 		return e.keep(func() string { return e.hdrIDs(hdrs) })
@@ -520,6 +572,25 @@ func joinInts(xs []int) string {
 	return strings.Join(s, ".")
 }
 
+// locStr renders a locator for the line: rare shapes are the empty-but-non-nil slice ("e") and the
+// all-zero hash as an element ("z")
+func locStr(r *core.Rand, xs []int) string {
+	if len(xs) == 0 {
+		if r.Bool() {
+			return "e"
+		}
+		return "-"
+	}
+	s := joinInts(xs)
+	if r.Chance(1, 10) {
+		if r.Bool() {
+			return "z." + s
+		}
+		return s + ".z"
+	}
+	return s
+}
+
 // randLocator: mixtures of a genuine locator of some node, unknown ids, side-chain ids, shuffles
 func randLocator(r *core.Rand, t *tree, tip int) []int {
 	var loc []int
@@ -565,6 +636,9 @@ func randLocator(r *core.Rand, t *tree, tip int) []int {
 	if r.Chance(1, 5) {
 		loc = append([]int{t.n() + 7}, loc...)
 	}
+	if r.Chance(1, 8) && len(loc) > 0 { // duplicate entries
+		loc = append(loc, loc[r.Intn(len(loc))], loc[0])
+	}
 	return loc
 }
 
@@ -609,7 +683,7 @@ func queryOps(r *core.Rand, t *tree, tip int, k int) []string {
 			if r.Bool() {
 				stop = onChain()
 			}
-			ops = append(ops, fmt.Sprintf("lh:%s:%d", joinInts(loc), stop))
+			ops = append(ops, fmt.Sprintf("lh:%s:%d", locStr(r, loc), stop))
 		case 0:
 			ops = append(ops, fmt.Sprintf("has:%d", anyNode()))
 		case 1:
@@ -653,8 +727,8 @@ func queryOps(r *core.Rand, t *tree, tip int, k int) []string {
 			if r.Chance(1, 3) {
 				mx = r.Intn(th + 2)
 			}
-			kind := []string{"inv", "hdr", "inv"}[r.Intn(3)]
-			ops = append(ops, fmt.Sprintf("%s:%s:%d:%d", kind, joinInts(loc), stop, mx))
+			kind := []string{"inv", "hdr", "reuse"}[r.Intn(3)]
+			ops = append(ops, fmt.Sprintf("%s:%s:%d:%d", kind, locStr(r, loc), stop, mx))
 		case 11:
 			s := edgeHeight(r, th)
 			e := s + int(r.Pick(0, 1, 2, 10, -1, int64(th)))
@@ -779,7 +853,7 @@ func (P) Generate(g *core.Gen) {
 			loc := randLocator(r, t, tip)
 			for stop := 0; stop <= t.n(); stop++ {
 				for mx := 0; mx <= th+1; mx++ {
-					ops = append(ops, fmt.Sprintf("%s:%s:%d:%d", []string{"inv", "hdr", "inv"}[(stop+mx)%3], joinInts(loc), stop, mx))
+					ops = append(ops, fmt.Sprintf("%s:%s:%d:%d", []string{"inv", "hdr", "reuse"}[(stop+mx)%3], locStr(r, loc), stop, mx))
 				}
 			}
 		}
